@@ -19,6 +19,11 @@ CHECKS = {
     technique="TLA+ spec of chain validity (declarative ValidChain vs. the code's ordered Decide) checked by TLC on all configurations within K field changes of three valid baselines; every configuration TLC visits is materialised with real keys/signatures and run through the real verifier; bit-flip and issuance traces validated by TLC",
     text="TLC enumerates every certificate-forest configuration (types, names, half-open validity windows, parent fingerprints, signer keys, store subsets, presented intermediate, requested name, clock) within K=3 (thorough 4) field changes of three valid baselines, checks that the code's ordered procedure accepts exactly the declaratively valid chains, and emits each configuration with the verdict. The harness forges each configuration through the real serialiser and parser with real Ed25519 signatures (three concrete variants per configuration: clock jitter inside a tick, unknown-type byte, zero vs unused fingerprint) and requires Store.VerifyLeaf to accept iff the spec says valid. Every single-bit flip of a verified leaf and intermediate, and the issuing functions at all window boundaries, are recorded and judged by TLC against the same spec.",
     note="Trusted: TLC, Ed25519/SHA3 primitives, the harness' forge function (uses the repository's WriteTo/ReadFrom). Configurations farther than K changes from a baseline are not enumerated. Root certificates' own self-signature is not part of the property nor of the code's check."),
+ "C05": dict(
+    level="model_checking", ref="§3 C05",
+    technique="TLA+ spec of login (authorized-keys file classes x grant histories) checked by TLC; every TLC behaviour replayed on a real HopServer with an in-memory file system, real result judged one-directionally against the property",
+    text="HopLogin.tla models files as sequences of line kinds (valid entry, other key, blank, comment, garbage, truncated base64, wrong prefix, padded entry), the grant map, the transport key set and the enable flag; TLC checks on every behaviour that a granted login was allowed by the property, that unparsable/missing files never admit anyone without a grant, and that grants are consumed. Every reachable (file, history) of three configurations (all files of <=2 lines x histories <=2; 13 curated files x histories <=3/4; grants disabled) is replayed on a real hopserver.HopServer (MapFS, three concrete renderings per line kind) and a real success that the property does not allow is a violation.",
+    note="Trusted: TLC, the driver's composition of AuthorizeKey/AuthorizeKeyAuthGrant (copied from hopSession.checkAuthorization; the real session path is exercised by the C07 session driver). Refusals are never violations. Transport-level authentication of the key (C01) is assumed."),
 }
 
 NOT_YET = {}
